@@ -7,9 +7,8 @@ mkdir -p bin work evidence replays
 (cd tools && go build -o ../bin/go2lean ./go2lean)
 ./bin/go2lean -repo /repo -out lean/LemoGen
 cp /repo/go.sum harness/go.sum
-(cd harness && go build -tags verif -o ../bin/hx ./hx)
-if ./bin/hx facts -out work/facts.tmp -repo /repo >/dev/null 2>&1; then
-  cp work/facts.tmp/*.lean lean/LemoGen/ 2>/dev/null || true
-fi
+# warms the Go build cache; every check builds its own binary from the common files + its sub-commands' files,
+# so a source change that breaks ONE property's harness does not take the others down
+(cd harness && go build -tags verif -o ../bin/hx ./hx) || echo "note: the full harness does not build against /repo; per-check builds decide"
 (cd lean && lake build 2>&1 | grep -v 'WARNING conda' | tail -5)
 echo setup done
